@@ -58,3 +58,70 @@ pub fn run_source(case: &mut Case, prop: &str, label: &str, src: &str, budget: u
         _ => Some((r.stdout.clone(), r.term.clone(), r.stderr)),
     }
 }
+
+/// the same for a multi-package project given as (relative path, text) files; `main.gom` is the entry file
+pub fn run_project(case: &mut Case, prop: &str, label: &str, files: &[(std::path::PathBuf, String)], budget: u64) -> Option<(String, Term, String)> {
+    let srcs: String = files.iter().map(|(p, t)| format!("// ---- {}\n{}\n", p.display(), t)).collect();
+    runner::note_input(&srcs);
+    let root = util::scratch_base().join(format!("proj-{}-{}", std::process::id(), util::hex64(util::hash_str(&format!("{}{}", label, srcs)))));
+    let _ = std::fs::remove_dir_all(&root);
+    let order: Vec<usize> = (0..files.len()).collect();
+    if crate::projgen::materialize(&root, files, &order).is_err() {
+        case.inconclusive("cannot materialise project");
+        return None;
+    }
+    let whole = runner::guard(|| crate::projdrv::observe_whole(&root));
+    let _ = std::fs::remove_dir_all(&root);
+    let whole = match whole {
+        Ok(o) => o,
+        Err(p) => {
+            case.violation(
+                format!("{}:compiler-crash-on-valid-program:{}", prop, crate::diff::msg_class(&p.site)),
+                format!("a project that is valid by construction makes the compiler crash at {}: {}", p.site, util::truncate(&p.message, 160)),
+                json!({"label": label, "sources": util::truncate(&srcs, 8000)}),
+            );
+            return None;
+        }
+    };
+    if whole.get("whole/result").map_or(true, |r| r != "ok") {
+        let d = whole.get("whole/diagnostics").cloned().unwrap_or_default();
+        let first = d.lines().nth(1).unwrap_or("").split('|').last().unwrap_or("").to_string();
+        case.violation(
+            format!("{}:program-rejected:{}", prop, crate::diff::msg_class(&first)),
+            format!("a well-formed project is rejected: {}", util::truncate(&d, 300)),
+            json!({"label": label, "diagnostics": d, "sources": util::truncate(&srcs, 8000)}),
+        );
+        return None;
+    }
+    let go = whole.get("whole/dump/go")?.clone();
+    let gp = goexec::parse(&go);
+    match goexec::vet(&gp) {
+        Vet::Accept => {}
+        Vet::Unsupported(u) => {
+            case.inconclusive(format!("gomini vet unsupported: {}", u));
+            return None;
+        }
+        Vet::Reject(errs) => {
+            let go_line = go.lines().nth((errs[0].1 as usize).saturating_sub(1)).unwrap_or("").trim().to_string();
+            case.violation(
+                format!("{}:invalid-go:{}:{}", prop, errs[0].0, crate::props::c02::line_shape(&go_line)),
+                format!("project yields invalid Go: [{}] {} at `{}`", errs[0].0, util::truncate(&errs[0].2, 160), util::truncate(&go_line, 120)),
+                json!({"label": label, "sources": util::truncate(&srcs, 8000), "go_line": go_line}),
+            );
+            return None;
+        }
+    }
+    let r = goexec::run(&gp, budget, gomini::Sched::Deterministic);
+    case.count("programs_run", 1);
+    match &r.term {
+        Term::Unsupported(u) => {
+            case.inconclusive(format!("gomini run unsupported: {}", u));
+            None
+        }
+        Term::Budget => {
+            case.inconclusive("gomini budget");
+            None
+        }
+        _ => Some((r.stdout.clone(), r.term.clone(), r.stderr)),
+    }
+}
